@@ -72,6 +72,10 @@ def run(case):
             v = a[:, 1]
             v[1] = -9
         return {'a': a.tolist()}
+    if f == 'np_where':
+        wrap = lambda v: numpy.array(v) if isinstance(v, list) else v
+        r = numpy.where(numpy.array(case['cond']), wrap(case['x']), wrap(case['y']))
+        return {'r': r.tolist(), 'kind': r.dtype.kind}
     if f == 'np_bool_arith':
         m = numpy.array(case['mask'])
         ints = numpy.arange(len(case['mask']))
